@@ -198,6 +198,15 @@ func mutateTPS(r *rand.Rand, s string) string {
 }
 
 func runC10(c *ctx) {
+	if c.tier == "replay" {
+		in := readReplay(c).Input
+		if p, err := decodeEnc(in); err == nil {
+			emitC10F(c, p, "replay")
+		} else if b, err := hex.DecodeString(strings.TrimSpace(in)); err == nil {
+			emitC10S(c, string(b), false)
+		}
+		return
+	}
 	r := c.r
 	var texts []string
 	for g := 0; g < 40*c.scale; g++ {
